@@ -155,6 +155,41 @@ def getinfo (j : Json) : Except String Json := do
                                 | _ => Json.null))]),
                ("hyp", jbool (validHash ih))]
 
+/-- `c14.torrent`: `Magnet.torrent()` as a function of the magnet's fields and the adopted info
+    section (values are opaque JSON); `adoptedHash` = what the adopted info hashes to (null = it does
+    not validate), `ownValidates` = oracle for the info section made of dn/xl alone. -/
+def torrent (j : Json) : Except String Json := do
+  let ih ← getCps j "ih"
+  let dn ← getOptCps j "dn"
+  let xl : Option Int := (j.getObjValAs? Int "xl").toOption
+  let tr ← getCpsList j "tr"
+  let ws ← getCpsList j "ws"
+  let adopted : Option (Info Json) ← match j.getObjVal? "adopted" with
+    | .ok Json.null => pure none
+    | .error _ => pure none
+    | .ok v => do
+      let a ← v.getArr?
+      let ps ← a.toList.mapM fun p => do
+        match (← p.getArr?).toList with
+        | [k, x] => do pure ((← cpsOfJson k), x)
+        | _ => throw "adopted: pairs expected"
+      pure (some ps)
+  let adoptedHash ← getOptCps j "adoptedHash"
+  let ofStr : Str → Json := fun s => jarr [jstr "s", jcps s]
+  let ofInt : Int → Json := fun n => jarr [jstr "i", jint n]
+  let f : Fields := { dn := dn, xl := xl, tr := tr, ws := ws }
+  let hashOf : Info Json → Option Str := fun i =>
+    match adopted with
+    | some a => if i == a then adoptedHash else none
+    | none => none
+  let jout (t : TorrentOut Json) : Json :=
+    jobj [("info", jarr (t.info.map fun p => jarr [jcps p.1, p.2])), ("ownHash", jopt jcps t.ownHash),
+          ("trackers", jarr (t.trackers.map jcps)), ("webseeds", jarr (t.webseeds.map jcps)),
+          ("infohash", jexc jcps (torrentInfohash hashOf t))]
+  let m := torrentOf ofStr ofInt ih f adopted
+  let hyp := validHash ih && (match xl with | some n => decide (1 ≤ n) | none => true)
+  return jobj [("model", jexc jout m), ("spec", jout (specTorrent ofStr ofInt ih f adopted)), ("hyp", jbool hyp)]
+
 def handle (op : String) (j : Json) : Except String Json :=
   match op with
   | "c14.hash" => hash j
@@ -163,6 +198,7 @@ def handle (op : String) (j : Json) : Except String Json :=
   | "c14.xl" => xl j
   | "c14.urls" => urls j
   | "c14.getinfo" => getinfo j
+  | "c14.torrent" => torrent j
   | _ => throw s!"unknown op {op}"
 
 end Driver.C14
